@@ -339,7 +339,9 @@ done:
 	if !truncated {
 		for iter.Next() {
 			object := iter.Key().(string)
-			if matched := prefix.Match(object, &match); matched && !match.CommonPrefix {
+			if matched := prefix.Match(object, &match); matched && !(match.CommonPrefix && seenPrefixes[match.MatchedPart]) {
+				// Uploads remain, or keys that roll up into a common prefix
+				// this page has not reported:
 				truncated = true
 
 				// This is not especially defensive; it assumes the rest of the code works
